@@ -57,8 +57,15 @@ class FileSystemArtifactStore(SerializedArtifactStore):
 
         mode = 'wb' if fmt == DataFormat.PICKLE else 'w'
 
-        with Path(self._ensure_dir() / f'{node_id}.{fmt.value}').open(mode) as file:  # noqa: ASYNC101
-            serializer_factory.from_data_format(fmt).dump(data, file)
+        path = Path(self._ensure_dir() / f'{node_id}.{fmt.value}')
+
+        try:
+            with path.open(mode) as file:  # noqa: ASYNC101
+                serializer_factory.from_data_format(fmt).dump(data, file)
+        except BaseException:
+            # A failed save must not make the artifact look saved
+            path.unlink(missing_ok=True)
+            raise
 
     @dont_use_for_prod
     async def load(self, node_id: NodeId) -> NodeResultT:
